@@ -186,6 +186,7 @@ func syncPart(t *testing.T, run *ev.Run) {
 			if k%4 == 2 {
 				sc.GC = 2 + r.Intn(3)
 			}
+			sc.KeepAll = k%3 == 1
 			switch k % 6 {
 			case 4:
 				sc.Backend = "bolt"
